@@ -106,4 +106,232 @@ theorem src_offset_utc_rs_impl_Debug : C09_src_offset_utc_rs_impl_Debug =
 theorem src_offset_utc_rs_impl_Display : C09_src_offset_utc_rs_impl_Display =
     ["v1", "Display", "for", "Utc", "fmt(", "&", "self", "v2", "&", "v1", "Formatter", "->", "v1", "Result", "write!(", "v2", "\"UTC\""] := by decide +kernel
 
+/-- callee src/datetime/mod.rs:fn from_naive_utc_and_offset -/
+theorem callee_src_datetime_mod_rs_fn_from_naive_utc_and_offset : C09_callee_src_datetime_mod_rs_fn_from_naive_utc_and_offset =
+    ["v1", "NaiveDateTime", "v2", "Tz", "Offset", "->", "DateTime", "<", "Tz", ">", "DateTime", "v1", "v2"] := by decide +kernel
+
+/-- callee src/datetime/mod.rs:fn overflowing_naive_local -/
+theorem callee_src_datetime_mod_rs_fn_overflowing_naive_local : C09_callee_src_datetime_mod_rs_fn_overflowing_naive_local =
+    ["&", "self", "->", "NaiveDateTime", "self", "v1", "overflowing_add_offset(", "self", "v2", "fix("] := by decide +kernel
+
+/-- callee src/format/formatting.rs:fn new_with_offset -/
+theorem callee_src_format_formatting_rs_fn_new_with_offset : C09_callee_src_format_formatting_rs_fn_new_with_offset =
+    ["<", "Off", ">", "v1", "Option", "<", "NaiveDate", ">", "v2", "Option", "<", "NaiveTime", ">", "v3", "&", "Off", "v4", "I", "->", "DelayedFormat", "<", "I", ">", "Off", "Offset", "+", "Display", "v5", "v3", "to_string(", "v3", "fix(", "DelayedFormat", "v1", "v2", "v6", "Some(", "v5", "v4", "v7", "default_locale("] := by decide +kernel
+
+/-- callee src/format/formatting.rs:fn new_with_offset_and_locale -/
+theorem callee_src_format_formatting_rs_fn_new_with_offset_and_locale : C09_callee_src_format_formatting_rs_fn_new_with_offset_and_locale =
+    ["<", "Off", ">", "v1", "Option", "<", "NaiveDate", ">", "v2", "Option", "<", "NaiveTime", ">", "v3", "&", "Off", "v4", "I", "v5", "Locale", "->", "DelayedFormat", "<", "I", ">", "Off", "Offset", "+", "Display", "v6", "v3", "to_string(", "v3", "fix(", "DelayedFormat", "v1", "v2", "v7", "Some(", "v6", "v4", "v5"] := by decide +kernel
+
+/-- callee src/format/parse.rs:fn parse_internal -/
+theorem callee_src_format_parse_rs_fn_parse_internal : C09_callee_src_format_parse_rs_fn_parse_internal =
+    ["<", "I", "B", ">", "v1", "&", "Parsed", "v2", "&", "str", "v3", "I", "->", "Result", "<", "&", "str", "ParseError", ">", "I", "Iterator", "<", "Item", "B", ">", "B", "Borrow", "<", "Item", "<", ">>", "v4", "!", "v5", "v6", "v7", "=>", "match", "v6", "Ok(", "v8", "v9", "=>", "v2", "v8", "v9", "Err(", "v6", "=>", "return", "Err(", "v6", "for", "v10", "in", "v3", "match", "*", "v10", "borrow(", "Item", "Literal(", "v11", "=>", "if", "v2", "len(", "<", "v11", "len(", "return", "Err(", "TOO_SHORT", "if", "!", "v2", "starts_with(", "v11", "return", "Err(", "INVALID", "v2", "&", "v2", "v11", "len(", "..", "Item", "OwnedLiteral(", "v11", "=>", "if", "v2", "len(", "<", "v11", "len(", "return", "Err(", "TOO_SHORT", "if", "!", "v2", "starts_with(", "&", "v11", "..", "return", "Err(", "INVALID", "v2", "&", "v2", "v11", "len(", "..", "Item", "Space(", "v12", "=>", "v2", "v2", "trim_start(", "Item", "OwnedSpace(", "v12", "=>", "v2", "v2", "trim_start(", "Item", "Numeric(", "v13", "v14", "=>", "Numeric", "*", "Setter", "fn(", "&", "Parsed", "i64", "->", "ParseResult", "<", ">", "let(", "v15", "v16", "v17", "usize", "bool", "Setter", "match", "*", "v13", "Year", "=>", "4", "true", "Parsed", "v18", "YearDiv100", "=>", "2", "false", "Parsed", "v19", "YearMod100", "=>", "2", "false", "Parsed", "v20", "IsoYear", "=>", "4", "true", "Parsed", "v21", "IsoYearDiv100", "=>", "2", "false", "Parsed", "v22", "IsoYearMod100", "=>", "2", "false", "Parsed", "v23", "Quarter", "=>", "1", "false", "Parsed", "v24", "Month", "=>", "2", "false", "Parsed", "v25", "Day", "=>", "2", "false", "Parsed", "v26", "WeekFromSun", "=>", "2", "false", "Parsed", "v27", "WeekFromMon", "=>", "2", "false", "Parsed", "v28", "IsoWeek", "=>", "2", "false", "Parsed", "v29", "NumDaysFromSun", "=>", "1", "false", "v30", "WeekdayFromMon", "=>", "1", "false", "v31", "Ordinal", "=>", "3", "false", "Parsed", "v32", "Hour", "=>", "2", "false", "Parsed", "v33", "Hour12", "=>", "2", "false", "Parsed", "v34", "Minute", "=>", "2", "false", "Parsed", "v35", "Second", "=>", "2", "false", "Parsed", "v36", "Nanosecond", "=>", "9", "false", "Parsed", "v37", "Timestamp", "=>", "usize", "MAX", "true", "Parsed", "v38", "Internal(", "v39", "=>", "match", "v39", "v40", "v2", "v2", "trim_start(", "v9", "if", "v16", "if", "v2", "starts_with(", "'-'", "v9", "try_consume!(", "v41", "number(", "&", "v2", "1", "..", "1", "usize", "MAX", "0", "checked_sub(", "v9", "ok_or(", "OUT_OF_RANGE", "?", "else", "if", "v2", "starts_with(", "'+'", "try_consume!(", "v41", "number(", "&", "v2", "1", "..", "1", "usize", "MAX", "else", "try_consume!(", "v41", "number(", "v2", "1", "v15", "else", "try_consume!(", "v41", "number(", "v2", "1", "v15", "set(", "v1", "v9", "?", "Item", "Fixed(", "v13", "=>", "Fixed", "*", "match", "v13", "&", "ShortMonthName", "=>", "v42", "try_consume!(", "v41", "short_month0(", "v2", "v1", "set_month(", "i64", "from(", "v42", "+", "1", "?", "&", "LongMonthName", "=>", "v42", "try_consume!(", "v41", "short_or_long_month0(", "v2", "v1", "set_month(", "i64", "from(", "v42", "+", "1", "?", "&", "ShortWeekdayName", "=>", "v43", "try_consume!(", "v41", "short_weekday(", "v2", "v1", "set_weekday(", "v43", "?", "&", "LongWeekdayName", "=>", "v43", "try_consume!(", "v41", "short_or_long_weekday(", "v2", "v1", "set_weekday(", "v43", "?", "&", "LowerAmPm", "|", "&", "UpperAmPm", "=>", "if", "v2", "len(", "<", "2", "return", "Err(", "TOO_SHORT", "v44", "match(", "v2", "as_bytes(", "0", "|", "32", "v2", "as_bytes(", "1", "|", "32", "b'a'", "b'm'", "=>", "false", "b'p'", "b'm'", "=>", "true", "v12", "=>", "return", "Err(", "INVALID", "v1", "set_ampm(", "v44", "?", "v2", "&", "v2", "2", "..", "&", "Nanosecond", "|", "&", "Nanosecond3", "|", "&", "Nanosecond6", "|", "&", "Nanosecond9", "=>", "if", "v2", "starts_with(", "'.'", "v45", "try_consume!(", "v41", "nanosecond(", "&", "v2", "1", "..", "v1", "set_nanosecond(", "v45", "?", "&", "Internal(", "InternalFixed", "v46", "InternalInternal", "Nanosecond3NoDot", "=>", "if", "v2", "len(", "<", "3", "return", "Err(", "TOO_SHORT", "v45", "try_consume!(", "v41", "nanosecond_fixed(", "v2", "3", "v1", "set_nanosecond(", "v45", "?", "&", "Internal(", "InternalFixed", "v46", "InternalInternal", "Nanosecond6NoDot", "=>", "if", "v2", "len(", "<", "6", "return", "Err(", "TOO_SHORT", "v45", "try_consume!(", "v41", "nanosecond_fixed(", "v2", "6", "v1", "set_nanosecond(", "v45", "?", "&", "Internal(", "InternalFixed", "v46", "InternalInternal", "Nanosecond9NoDot", "=>", "if", "v2", "len(", "<", "9", "return", "Err(", "TOO_SHORT", "v45", "try_consume!(", "v41", "nanosecond_fixed(", "v2", "9", "v1", "set_nanosecond(", "v45", "?", "&", "TimezoneName", "=>", "try_consume!(", "Ok(", "v2", "trim_start_matches(", "|", "v47", "char", "|", "!", "v47", "is_whitespace(", "&", "TimezoneOffsetColon", "|", "&", "TimezoneOffsetDoubleColon", "|", "&", "TimezoneOffsetTripleColon", "|", "&", "TimezoneOffset", "=>", "v48", "try_consume!(", "v41", "timezone_offset(", "v2", "trim_start(", "v41", "v49", "false", "false", "true", "v1", "set_offset(", "i64", "from(", "v48", "?", "&", "TimezoneOffsetColonZ", "|", "&", "TimezoneOffsetZ", "=>", "v48", "try_consume!(", "v41", "timezone_offset(", "v2", "trim_start(", "v41", "v49", "true", "false", "true", "v1", "set_offset(", "i64", "from(", "v48", "?", "&", "Internal(", "InternalFixed", "v46", "InternalInternal", "TimezoneOffsetPermissive", "=>", "v48", "try_consume!(", "v41", "timezone_offset(", "v2", "trim_start(", "v41", "v49", "true", "true", "true", "v1", "set_offset(", "i64", "from(", "v48", "?", "&", "RFC2822", "=>", "try_consume!(", "parse_rfc2822(", "v1", "v2", "&", "RFC3339", "=>", "try_consume!(", "parse_rfc3339_relaxed(", "v1", "v2", "Item", "Error", "=>", "return", "Err(", "BAD_FORMAT", "Ok(", "v2"] := by decide +kernel
+
+/-- callee src/format/parse.rs:fn parse_rfc2822 -/
+theorem callee_src_format_parse_rs_fn_parse_rfc2822 : C09_callee_src_format_parse_rs_fn_parse_rfc2822 =
+    ["<", ">", "v1", "&", "Parsed", "v2", "&", "str", "->", "ParseResult", "<", "&", "str", ">", "v3", "!", "v4", "v5", "v6", "=>", "let(", "v7", "v8", "v5", "?", "v2", "v7", "v8", "v2", "v2", "trim_start(", "if", "Ok(", "v7", "v9", "v10", "short_weekday(", "v2", "if", "!", "v7", "starts_with(", "','", "return", "Err(", "INVALID", "v2", "&", "v7", "1", "..", "v1", "set_weekday(", "v9", "?", "v2", "v2", "trim_start(", "v1", "set_day(", "try_consume!(", "v10", "number(", "v2", "1", "2", "?", "v2", "v10", "space(", "v2", "?", "v1", "set_month(", "1", "+", "i64", "from(", "try_consume!(", "v10", "short_month0(", "v2", "?", "v2", "v10", "space(", "v2", "?", "v11", "v2", "len(", "v12", "try_consume!(", "v10", "number(", "v2", "2", "usize", "MAX", "v13", "v11", "-", "v2", "len(", "match(", "v13", "v12", "2", "0", "..=", "49", "=>", "v12", "+=", "2000", "2", "50", "..=", "99", "=>", "v12", "+=", "1900", "3", "v14", "=>", "v12", "+=", "1900", "v14", "v14", "=>", "v1", "set_year(", "v12", "?", "v2", "v10", "space(", "v2", "?", "v1", "set_hour(", "try_consume!(", "v10", "number(", "v2", "2", "2", "?", "v2", "v10", "char(", "v2", "trim_start(", "b':'", "?", "trim_start(", "v1", "set_minute(", "try_consume!(", "v10", "number(", "v2", "2", "2", "?", "if", "Ok(", "v7", "v10", "char(", "v2", "trim_start(", "b':'", "v1", "set_second(", "try_consume!(", "v10", "number(", "v7", "2", "2", "?", "v2", "v10", "space(", "v2", "?", "v1", "set_offset(", "i64", "from(", "try_consume!(", "v10", "timezone_offset_2822(", "v2", "?", "while", "Ok(", "v15", "v10", "comment_2822(", "v2", "v2", "v15", "Ok(", "v2"] := by decide +kernel
+
+/-- callee src/format/parsed.rs:fn resolve_week_date -/
+theorem callee_src_format_parsed_rs_fn_resolve_week_date : C09_callee_src_format_parsed_rs_fn_resolve_week_date =
+    ["v1", "i32", "v2", "u32", "v3", "Weekday", "v4", "Weekday", "->", "ParseResult", "<", "NaiveDate", ">", "if", "v2", ">", "53", "return", "Err(", "OUT_OF_RANGE", "v5", "NaiveDate", "from_yo_opt(", "v1", "1", "ok_or(", "OUT_OF_RANGE", "?", "v6", "1", "+", "v4", "days_since(", "v5", "weekday(", "as", "i32", "v3", "v3", "days_since(", "v4", "as", "i32", "v7", "v6", "+", "v2", "as", "i32", "-", "1", "*", "7", "+", "v3", "if", "v7", "<=", "0", "return", "Err(", "IMPOSSIBLE", "v5", "with_ordinal(", "v7", "as", "u32", "ok_or(", "IMPOSSIBLE"] := by decide +kernel
+
+/-- callee src/format/parsed.rs:fn resolve_year -/
+theorem callee_src_format_parsed_rs_fn_resolve_year : C09_callee_src_format_parsed_rs_fn_resolve_year =
+    ["v1", "Option", "<", "i32", ">", "v2", "Option", "<", "i32", ">", "v3", "Option", "<", "i32", ">", "->", "ParseResult", "<", "Option", "<", "i32", ">>", "match(", "v1", "v2", "v3", "v1", "None", "None", "=>", "Ok(", "v1", "Some(", "v1", "v2", "v3", "Some(", "0", "..=", "99", "|", "Some(", "v1", "v2", "v3", "None", "=>", "if", "v1", "<", "0", "return", "Err(", "IMPOSSIBLE", "v4", "v1", "/", "100", "v5", "v1", "%", "100", "if", "v2", "unwrap_or(", "v4", "==", "v4", "&&", "v3", "unwrap_or(", "v5", "==", "v5", "Ok(", "Some(", "v1", "else", "Err(", "IMPOSSIBLE", "None", "Some(", "v2", "Some(", "v3", "0", "..=", "99", "=>", "if", "v2", "<", "0", "return", "Err(", "IMPOSSIBLE", "v1", "v2", "checked_mul(", "100", "and_then(", "|", "v6", "|", "v6", "checked_add(", "v3", "Ok(", "Some(", "v1", "ok_or(", "OUT_OF_RANGE", "?", "None", "None", "Some(", "v3", "0", "..=", "99", "=>", "Ok(", "Some(", "v3", "+", "if", "v3", "<", "70", "2000", "else", "1900", "None", "Some(", "v7", "None", "=>", "Err(", "NOT_ENOUGH", "v7", "v7", "Some(", "v7", "=>", "Err(", "OUT_OF_RANGE"] := by decide +kernel
+
+/-- callee src/format/parsed.rs:fn set_ampm -/
+theorem callee_src_format_parsed_rs_fn_set_ampm : C09_callee_src_format_parsed_rs_fn_set_ampm =
+    ["&", "self", "v1", "bool", "->", "ParseResult", "<", ">", "set_if_consistent(", "&", "self", "v2", "v1", "as", "u32"] := by decide +kernel
+
+/-- callee src/format/parsed.rs:fn set_day -/
+theorem callee_src_format_parsed_rs_fn_set_day : C09_callee_src_format_parsed_rs_fn_set_day =
+    ["&", "self", "v1", "i64", "->", "ParseResult", "<", ">", "if!(", "1", "..=", "31", "contains(", "&", "v1", "return", "Err(", "OUT_OF_RANGE", "set_if_consistent(", "&", "self", "v2", "v1", "as", "u32"] := by decide +kernel
+
+/-- callee src/format/parsed.rs:fn set_hour -/
+theorem callee_src_format_parsed_rs_fn_set_hour : C09_callee_src_format_parsed_rs_fn_set_hour =
+    ["&", "self", "v1", "i64", "->", "ParseResult", "<", ">", "let(", "v2", "v3", "match", "v1", "v4", "0", "..=", "11", "=>", "0", "v4", "as", "u32", "v4", "12", "..=", "23", "=>", "1", "v4", "as", "u32", "-", "12", "v5", "=>", "return", "Err(", "OUT_OF_RANGE", "set_if_consistent(", "&", "self", "v2", "v2", "?", "set_if_consistent(", "&", "self", "v3", "v3"] := by decide +kernel
+
+/-- callee src/format/parsed.rs:fn set_if_consistent -/
+theorem callee_src_format_parsed_rs_fn_set_if_consistent : C09_callee_src_format_parsed_rs_fn_set_if_consistent =
+    ["<", "T", "PartialEq", ">", "v1", "&", "Option", "<", "T", ">", "v2", "T", "->", "ParseResult", "<", ">", "match", "v1", "Some(", "v1", "if", "*", "v1", "!=", "v2", "=>", "Err(", "IMPOSSIBLE", "v3", "=>", "*", "v1", "Some(", "v2", "Ok("] := by decide +kernel
+
+/-- callee src/format/parsed.rs:fn set_minute -/
+theorem callee_src_format_parsed_rs_fn_set_minute : C09_callee_src_format_parsed_rs_fn_set_minute =
+    ["&", "self", "v1", "i64", "->", "ParseResult", "<", ">", "if!(", "0", "..=", "59", "contains(", "&", "v1", "return", "Err(", "OUT_OF_RANGE", "set_if_consistent(", "&", "self", "v2", "v1", "as", "u32"] := by decide +kernel
+
+/-- callee src/format/parsed.rs:fn set_month -/
+theorem callee_src_format_parsed_rs_fn_set_month : C09_callee_src_format_parsed_rs_fn_set_month =
+    ["&", "self", "v1", "i64", "->", "ParseResult", "<", ">", "if!(", "1", "..=", "12", "contains(", "&", "v1", "return", "Err(", "OUT_OF_RANGE", "set_if_consistent(", "&", "self", "v2", "v1", "as", "u32"] := by decide +kernel
+
+/-- callee src/format/parsed.rs:fn set_nanosecond -/
+theorem callee_src_format_parsed_rs_fn_set_nanosecond : C09_callee_src_format_parsed_rs_fn_set_nanosecond =
+    ["&", "self", "v1", "i64", "->", "ParseResult", "<", ">", "if!(", "0", "..=", "999999999", "contains(", "&", "v1", "return", "Err(", "OUT_OF_RANGE", "set_if_consistent(", "&", "self", "v2", "v1", "as", "u32"] := by decide +kernel
+
+/-- callee src/format/parsed.rs:fn set_offset -/
+theorem callee_src_format_parsed_rs_fn_set_offset : C09_callee_src_format_parsed_rs_fn_set_offset =
+    ["&", "self", "v1", "i64", "->", "ParseResult", "<", ">", "set_if_consistent(", "&", "self", "v2", "i32", "try_from(", "v1", "map_err(", "|", "v3", "|", "OUT_OF_RANGE", "?"] := by decide +kernel
+
+/-- callee src/format/parsed.rs:fn set_ordinal -/
+theorem callee_src_format_parsed_rs_fn_set_ordinal : C09_callee_src_format_parsed_rs_fn_set_ordinal =
+    ["&", "self", "v1", "i64", "->", "ParseResult", "<", ">", "if!(", "1", "..=", "366", "contains(", "&", "v1", "return", "Err(", "OUT_OF_RANGE", "set_if_consistent(", "&", "self", "v2", "v1", "as", "u32"] := by decide +kernel
+
+/-- callee src/format/parsed.rs:fn set_second -/
+theorem callee_src_format_parsed_rs_fn_set_second : C09_callee_src_format_parsed_rs_fn_set_second =
+    ["&", "self", "v1", "i64", "->", "ParseResult", "<", ">", "if!(", "0", "..=", "60", "contains(", "&", "v1", "return", "Err(", "OUT_OF_RANGE", "set_if_consistent(", "&", "self", "v2", "v1", "as", "u32"] := by decide +kernel
+
+/-- callee src/format/parsed.rs:fn set_weekday -/
+theorem callee_src_format_parsed_rs_fn_set_weekday : C09_callee_src_format_parsed_rs_fn_set_weekday =
+    ["&", "self", "v1", "Weekday", "->", "ParseResult", "<", ">", "set_if_consistent(", "&", "self", "v2", "v1"] := by decide +kernel
+
+/-- callee src/format/parsed.rs:fn set_year -/
+theorem callee_src_format_parsed_rs_fn_set_year : C09_callee_src_format_parsed_rs_fn_set_year =
+    ["&", "self", "v1", "i64", "->", "ParseResult", "<", ">", "set_if_consistent(", "&", "self", "v2", "i32", "try_from(", "v1", "map_err(", "|", "v3", "|", "OUT_OF_RANGE", "?"] := by decide +kernel
+
+/-- callee src/format/parsed.rs:fn to_datetime -/
+theorem callee_src_format_parsed_rs_fn_to_datetime : C09_callee_src_format_parsed_rs_fn_to_datetime =
+    ["&", "self", "->", "ParseResult", "<", "DateTime", "<", "FixedOffset", ">>", "v1", "match(", "self", "v1", "self", "v2", "Some(", "v3", "v4", "=>", "v3", "None", "Some(", "v4", "=>", "0", "None", "None", "=>", "return", "Err(", "NOT_ENOUGH", "v5", "self", "to_naive_datetime_with_offset(", "v1", "?", "v1", "FixedOffset", "east_opt(", "v1", "ok_or(", "OUT_OF_RANGE", "?", "match", "v1", "from_local_datetime(", "&", "v5", "MappedLocalTime", "None", "=>", "Err(", "IMPOSSIBLE", "MappedLocalTime", "Single(", "v6", "=>", "Ok(", "v6", "MappedLocalTime", "Ambiguous(", "..", "=>", "Err(", "NOT_ENOUGH"] := by decide +kernel
+
+/-- callee src/format/parsed.rs:fn to_naive_date -/
+theorem callee_src_format_parsed_rs_fn_to_naive_date : C09_callee_src_format_parsed_rs_fn_to_naive_date =
+    ["&", "self", "->", "ParseResult", "<", "NaiveDate", ">", "resolve_year(", "v1", "Option", "<", "i32", ">", "v2", "Option", "<", "i32", ">", "v3", "Option", "<", "i32", ">", "->", "ParseResult", "<", "Option", "<", "i32", ">>", "match(", "v1", "v2", "v3", "v1", "None", "None", "=>", "Ok(", "v1", "Some(", "v1", "v2", "v3", "Some(", "0", "..=", "99", "|", "Some(", "v1", "v2", "v3", "None", "=>", "if", "v1", "<", "0", "return", "Err(", "IMPOSSIBLE", "v4", "v1", "/", "100", "v5", "v1", "%", "100", "if", "v2", "unwrap_or(", "v4", "==", "v4", "&&", "v3", "unwrap_or(", "v5", "==", "v5", "Ok(", "Some(", "v1", "else", "Err(", "IMPOSSIBLE", "None", "Some(", "v2", "Some(", "v3", "0", "..=", "99", "=>", "if", "v2", "<", "0", "return", "Err(", "IMPOSSIBLE", "v1", "v2", "checked_mul(", "100", "and_then(", "|", "v6", "|", "v6", "checked_add(", "v3", "Ok(", "Some(", "v1", "ok_or(", "OUT_OF_RANGE", "?", "None", "None", "Some(", "v3", "0", "..=", "99", "=>", "Ok(", "Some(", "v3", "+", "if", "v3", "<", "70", "2000", "else", "1900", "None", "Some(", "v7", "None", "=>", "Err(", "NOT_ENOUGH", "v7", "v7", "Some(", "v7", "=>", "Err(", "OUT_OF_RANGE", "v8", "resolve_year(", "self", "v9", "self", "v10", "self", "v11", "?", "v12", "resolve_year(", "self", "v13", "self", "v14", "self", "v15", "?", "v16", "|", "v17", "NaiveDate", "|", "v9", "v17", "year(", "let(", "v10", "v11", "if", "v9", ">=", "0", "Some(", "v9", "/", "100", "Some(", "v9", "%", "100", "else", "None", "None", "v18", "v17", "month(", "v19", "v17", "day(", "self", "v9", "unwrap_or(", "v9", "==", "v9", "&&", "self", "v10", "or(", "v10", "==", "v10", "&&", "self", "v11", "or(", "v11", "==", "v11", "&&", "self", "v18", "unwrap_or(", "v18", "==", "v18", "&&", "self", "v19", "unwrap_or(", "v19", "==", "v19", "v20", "|", "v17", "NaiveDate", "|", "v21", "v17", "iso_week(", "v13", "v21", "year(", "v22", "v21", "week(", "v23", "v17", "weekday(", "let(", "v14", "v15", "if", "v13", ">=", "0", "Some(", "v13", "/", "100", "Some(", "v13", "%", "100", "else", "None", "None", "self", "v13", "unwrap_or(", "v13", "==", "v13", "&&", "self", "v14", "or(", "v14", "==", "v14", "&&", "self", "v15", "or(", "v15", "==", "v15", "&&", "self", "v22", "unwrap_or(", "v22", "==", "v22", "&&", "self", "v23", "unwrap_or(", "v23", "==", "v23", "v24", "|", "v17", "NaiveDate", "|", "v25", "v17", "ordinal(", "v26", "v17", "weeks_from(", "Weekday", "Sun", "v27", "v17", "weeks_from(", "Weekday", "Mon", "self", "v25", "unwrap_or(", "v25", "==", "v25", "&&", "self", "v26", "map_or(", "v26", "|", "v6", "|", "v6", "as", "i32", "==", "v26", "&&", "self", "v27", "map_or(", "v27", "|", "v6", "|", "v6", "as", "i32", "==", "v27", "let(", "v28", "v29", "match(", "v8", "v12", "self", "Some(", "v9", "v7", "&", "Parsed", "v18", "Some(", "v18", "v19", "Some(", "v19", "..", "=>", "v17", "NaiveDate", "from_ymd_opt(", "v9", "v18", "v19", "ok_or(", "OUT_OF_RANGE", "?", "verify_isoweekdate(", "v17", "&&", "verify_ordinal(", "v17", "v17", "Some(", "v9", "v7", "&", "Parsed", "v25", "Some(", "v25", "..", "=>", "v17", "NaiveDate", "from_yo_opt(", "v9", "v25", "ok_or(", "OUT_OF_RANGE", "?", "verify_ymd(", "v17", "&&", "verify_isoweekdate(", "v17", "&&", "verify_ordinal(", "v17", "v17", "Some(", "v9", "v7", "&", "Parsed", "v26", "Some(", "v21", "v23", "Some(", "v23", "..", "=>", "v17", "resolve_week_date(", "v9", "v21", "v23", "Weekday", "Sun", "?", "verify_ymd(", "v17", "&&", "verify_isoweekdate(", "v17", "&&", "verify_ordinal(", "v17", "v17", "Some(", "v9", "v7", "&", "Parsed", "v27", "Some(", "v21", "v23", "Some(", "v23", "..", "=>", "v17", "resolve_week_date(", "v9", "v21", "v23", "Weekday", "Mon", "?", "verify_ymd(", "v17", "&&", "verify_isoweekdate(", "v17", "&&", "verify_ordinal(", "v17", "v17", "v7", "Some(", "v13", "&", "Parsed", "v22", "Some(", "v22", "v23", "Some(", "v23", "..", "=>", "v17", "NaiveDate", "from_isoywd_opt(", "v13", "v22", "v23", "v17", "v17", "ok_or(", "OUT_OF_RANGE", "?", "verify_ymd(", "v17", "&&", "verify_ordinal(", "v17", "v17", "v7", "v7", "v7", "=>", "return", "Err(", "NOT_ENOUGH", "if", "!", "v28", "return", "Err(", "IMPOSSIBLE", "else", "if", "Some(", "v30", "self", "v31", "if", "v30", "!=", "v29", "quarter(", "return", "Err(", "IMPOSSIBLE", "Ok(", "v29"] := by decide +kernel
+
+/-- callee src/format/parsed.rs:fn to_naive_datetime_with_offset -/
+theorem callee_src_format_parsed_rs_fn_to_naive_datetime_with_offset : C09_callee_src_format_parsed_rs_fn_to_naive_datetime_with_offset =
+    ["&", "self", "v1", "i32", "->", "ParseResult", "<", "NaiveDateTime", ">", "v2", "self", "to_naive_date(", "v3", "self", "to_naive_time(", "if", "let(", "Ok(", "v2", "Ok(", "v3", "v2", "v3", "v4", "v2", "and_time(", "v3", "v5", "v4", "and_utc(", "timestamp(", "-", "i64", "from(", "v1", "if", "Some(", "v6", "self", "v5", "if", "v6", "!=", "v5", "&&", "!", "v4", "nanosecond(", ">=", "1000000000", "&&", "v6", "==", "v5", "+", "1", "return", "Err(", "IMPOSSIBLE", "Ok(", "v4", "else", "if", "Some(", "v5", "self", "v5", "ParseError", "as", "PE", "ParseErrorKind", "Impossible", "OutOfRange", "match(", "v2", "v3", "Err(", "PE(", "OutOfRange", "v7", "|", "v7", "Err(", "PE(", "OutOfRange", "=>", "return", "Err(", "OUT_OF_RANGE", "Err(", "PE(", "Impossible", "v7", "|", "v7", "Err(", "PE(", "Impossible", "=>", "return", "Err(", "IMPOSSIBLE", "v7", "v7", "=>", "v8", "v5", "checked_add(", "i64", "from(", "v1", "ok_or(", "OUT_OF_RANGE", "?", "v4", "DateTime", "from_timestamp(", "v8", "0", "ok_or(", "OUT_OF_RANGE", "?", "naive_utc(", "v9", "self", "clone(", "if", "v9", "v10", "==", "Some(", "60", "match", "v4", "second(", "59", "=>", "0", "=>", "v4", "v4", "checked_sub_signed(", "TimeDelta", "try_seconds(", "1", "unwrap(", "ok_or(", "OUT_OF_RANGE", "?", "v7", "=>", "return", "Err(", "IMPOSSIBLE", "else", "v9", "set_second(", "i64", "from(", "v4", "second(", "?", "v9", "set_year(", "i64", "from(", "v4", "year(", "?", "v9", "set_ordinal(", "i64", "from(", "v4", "ordinal(", "?", "v9", "set_hour(", "i64", "from(", "v4", "hour(", "?", "v9", "set_minute(", "i64", "from(", "v4", "minute(", "?", "v2", "v9", "to_naive_date(", "?", "v3", "v9", "to_naive_time(", "?", "Ok(", "v2", "and_time(", "v3", "else", "v2", "?", "v3", "?", "unreachable!("] := by decide +kernel
+
+/-- callee src/format/parsed.rs:fn to_naive_time -/
+theorem callee_src_format_parsed_rs_fn_to_naive_time : C09_callee_src_format_parsed_rs_fn_to_naive_time =
+    ["&", "self", "->", "ParseResult", "<", "NaiveTime", ">", "v1", "match", "self", "v1", "Some(", "v2", "0", "..=", "1", "=>", "v2", "Some(", "v3", "=>", "return", "Err(", "OUT_OF_RANGE", "None", "=>", "return", "Err(", "NOT_ENOUGH", "v4", "match", "self", "v4", "Some(", "v2", "0", "..=", "11", "=>", "v2", "Some(", "v3", "=>", "return", "Err(", "OUT_OF_RANGE", "None", "=>", "return", "Err(", "NOT_ENOUGH", "v5", "v1", "*", "12", "+", "v4", "v6", "match", "self", "v6", "Some(", "v2", "0", "..=", "59", "=>", "v2", "Some(", "v3", "=>", "return", "Err(", "OUT_OF_RANGE", "None", "=>", "return", "Err(", "NOT_ENOUGH", "let(", "v7", "v8", "match", "self", "v7", "unwrap_or(", "0", "v2", "0", "..=", "59", "=>", "v2", "0", "60", "=>", "59", "1000000000", "v3", "=>", "return", "Err(", "OUT_OF_RANGE", "v8", "+=", "match", "self", "v9", "Some(", "v2", "0", "..=", "999999999", "if", "self", "v7", "is_some(", "=>", "v2", "Some(", "0", "..=", "999999999", "=>", "return", "Err(", "NOT_ENOUGH", "Some(", "v3", "=>", "return", "Err(", "OUT_OF_RANGE", "None", "=>", "0", "NaiveTime", "from_hms_nano_opt(", "v5", "v6", "v7", "v8", "ok_or(", "OUT_OF_RANGE"] := by decide +kernel
+
+/-- callee src/format/scan.rs:fn char -/
+theorem callee_src_format_scan_rs_fn_char : C09_callee_src_format_scan_rs_fn_char =
+    ["v1", "&", "str", "v2", "u8", "->", "ParseResult", "<", "&", "str", ">", "match", "v1", "as_bytes(", "first(", "Some(", "&", "v3", "if", "v3", "==", "v2", "=>", "Ok(", "&", "v1", "1", "..", "Some(", "v4", "=>", "Err(", "INVALID", "None", "=>", "Err(", "TOO_SHORT"] := by decide +kernel
+
+/-- callee src/format/scan.rs:fn comment_2822 -/
+theorem callee_src_format_scan_rs_fn_comment_2822 : C09_callee_src_format_scan_rs_fn_comment_2822 =
+    ["v1", "&", "str", "->", "ParseResult", "<", "&", "str", ">", "CommentState", "*", "v1", "v1", "trim_start(", "v2", "Start", "for(", "v3", "v4", "in", "v1", "bytes(", "enumerate(", "v2", "match(", "v2", "v4", "Start", "b'('", "=>", "Next(", "1", "Next(", "1", "b')'", "=>", "return", "Ok(", "&", "v1", "v3", "+", "1", "..", "Next(", "v5", "b'\\\\'", "=>", "Escape(", "v5", "Next(", "v5", "b'('", "=>", "Next(", "v5", "+", "1", "Next(", "v5", "b')'", "=>", "Next(", "v5", "-", "1", "Next(", "v5", "v6", "|", "Escape(", "v5", "v6", "=>", "Next(", "v5", "v6", "=>", "return", "Err(", "INVALID", "Err(", "TOO_SHORT"] := by decide +kernel
+
+/-- callee src/format/scan.rs:fn digits -/
+theorem callee_src_format_scan_rs_fn_digits : C09_callee_src_format_scan_rs_fn_digits =
+    ["v1", "&", "str", "->", "ParseResult", "<", "u8", "u8", ">", "v2", "v1", "as_bytes(", "if", "v2", "len(", "<", "2", "Err(", "TOO_SHORT", "else", "Ok(", "v2", "0", "v2", "1"] := by decide +kernel
+
+/-- callee src/format/scan.rs:fn nanosecond_fixed -/
+theorem callee_src_format_scan_rs_fn_nanosecond_fixed : C09_callee_src_format_scan_rs_fn_nanosecond_fixed =
+    ["v1", "&", "str", "v2", "usize", "->", "ParseResult", "<", "&", "str", "i64", ">", "let(", "v1", "v3", "number(", "v1", "v2", "v2", "?", "SCALE", "i64", "10", "0", "100000000", "10000000", "1000000", "100000", "10000", "1000", "100", "10", "1", "v3", "v3", "checked_mul(", "SCALE", "v2", "ok_or(", "OUT_OF_RANGE", "?", "Ok(", "v1", "v3"] := by decide +kernel
+
+/-- callee src/format/scan.rs:fn number -/
+theorem callee_src_format_scan_rs_fn_number : C09_callee_src_format_scan_rs_fn_number =
+    ["v1", "&", "str", "v2", "usize", "v3", "usize", "->", "ParseResult", "<", "&", "str", "i64", ">", "assert!(", "v2", "<=", "v3", "v4", "v1", "as_bytes(", "if", "v4", "len(", "<", "v2", "return", "Err(", "TOO_SHORT", "v5", "0", "for(", "v6", "v7", "in", "v4", "iter(", "take(", "v3", "cloned(", "enumerate(", "if", "!", "v7", "is_ascii_digit(", "if", "v6", "<", "v2", "return", "Err(", "INVALID", "else", "return", "Ok(", "&", "v1", "v6", "..", "v5", "v5", "match", "v5", "checked_mul(", "10", "and_then(", "|", "v5", "|", "v5", "checked_add(", "v7", "-", "b'0'", "as", "i64", "Some(", "v5", "=>", "v5", "None", "=>", "return", "Err(", "OUT_OF_RANGE", "Ok(", "&", "v1", "v8", "v9", "min(", "v3", "v4", "len(", "..", "v5"] := by decide +kernel
+
+/-- callee src/format/scan.rs:fn short_month0 -/
+theorem callee_src_format_scan_rs_fn_short_month0 : C09_callee_src_format_scan_rs_fn_short_month0 =
+    ["v1", "&", "str", "->", "ParseResult", "<", "&", "str", "u8", ">", "if", "v1", "len(", "<", "3", "return", "Err(", "TOO_SHORT", "v2", "v1", "as_bytes(", "v3", "match(", "v2", "0", "|", "32", "v2", "1", "|", "32", "v2", "2", "|", "32", "b'j'", "b'a'", "b'n'", "=>", "0", "b'f'", "b'e'", "b'b'", "=>", "1", "b'm'", "b'a'", "b'r'", "=>", "2", "b'a'", "b'p'", "b'r'", "=>", "3", "b'm'", "b'a'", "b'y'", "=>", "4", "b'j'", "b'u'", "b'n'", "=>", "5", "b'j'", "b'u'", "b'l'", "=>", "6", "b'a'", "b'u'", "b'g'", "=>", "7", "b's'", "b'e'", "b'p'", "=>", "8", "b'o'", "b'c'", "b't'", "=>", "9", "b'n'", "b'o'", "b'v'", "=>", "10", "b'd'", "b'e'", "b'c'", "=>", "11", "v4", "=>", "return", "Err(", "INVALID", "Ok(", "&", "v1", "3", "..", "v3"] := by decide +kernel
+
+/-- callee src/format/scan.rs:fn short_weekday -/
+theorem callee_src_format_scan_rs_fn_short_weekday : C09_callee_src_format_scan_rs_fn_short_weekday =
+    ["v1", "&", "str", "->", "ParseResult", "<", "&", "str", "Weekday", ">", "if", "v1", "len(", "<", "3", "return", "Err(", "TOO_SHORT", "v2", "v1", "as_bytes(", "v3", "match(", "v2", "0", "|", "32", "v2", "1", "|", "32", "v2", "2", "|", "32", "b'm'", "b'o'", "b'n'", "=>", "Weekday", "Mon", "b't'", "b'u'", "b'e'", "=>", "Weekday", "Tue", "b'w'", "b'e'", "b'd'", "=>", "Weekday", "Wed", "b't'", "b'h'", "b'u'", "=>", "Weekday", "Thu", "b'f'", "b'r'", "b'i'", "=>", "Weekday", "Fri", "b's'", "b'a'", "b't'", "=>", "Weekday", "Sat", "b's'", "b'u'", "b'n'", "=>", "Weekday", "Sun", "v4", "=>", "return", "Err(", "INVALID", "Ok(", "&", "v1", "3", "..", "v3"] := by decide +kernel
+
+/-- callee src/format/scan.rs:fn space -/
+theorem callee_src_format_scan_rs_fn_space : C09_callee_src_format_scan_rs_fn_space =
+    ["v1", "&", "str", "->", "ParseResult", "<", "&", "str", ">", "v2", "v1", "trim_start(", "if", "v2", "len(", "<", "v1", "len(", "Ok(", "v2", "else", "if", "v1", "is_empty(", "Err(", "TOO_SHORT", "else", "Err(", "INVALID"] := by decide +kernel
+
+/-- callee src/format/scan.rs:fn timezone_offset_2822 -/
+theorem callee_src_format_scan_rs_fn_timezone_offset_2822 : C09_callee_src_format_scan_rs_fn_timezone_offset_2822 =
+    ["v1", "&", "str", "->", "ParseResult", "<", "&", "str", "i32", ">", "v2", "v1", "as_bytes(", "iter(", "position(", "|", "&", "v3", "|", "!", "v3", "is_ascii_alphabetic(", "unwrap_or(", "v1", "len(", "if", "v2", ">", "0", "v4", "&", "v1", "as_bytes(", "..", "v2", "v1", "&", "v1", "v2", "..", "v5", "|", "v6", "|", "Ok(", "v1", "v6", "*", "3600", "if", "v4", "eq_ignore_ascii_case(", "b\"gmt\"", "||", "v4", "eq_ignore_ascii_case(", "b\"ut\"", "||", "v4", "eq_ignore_ascii_case(", "b\"z\"", "return", "offset_hours(", "0", "else", "if", "v4", "eq_ignore_ascii_case(", "b\"edt\"", "return", "offset_hours(", "-", "4", "else", "if", "v4", "eq_ignore_ascii_case(", "b\"est\"", "||", "v4", "eq_ignore_ascii_case(", "b\"cdt\"", "return", "offset_hours(", "-", "5", "else", "if", "v4", "eq_ignore_ascii_case(", "b\"cst\"", "||", "v4", "eq_ignore_ascii_case(", "b\"mdt\"", "return", "offset_hours(", "-", "6", "else", "if", "v4", "eq_ignore_ascii_case(", "b\"mst\"", "||", "v4", "eq_ignore_ascii_case(", "b\"pdt\"", "return", "offset_hours(", "-", "7", "else", "if", "v4", "eq_ignore_ascii_case(", "b\"pst\"", "return", "offset_hours(", "-", "8", "else", "if", "v4", "len(", "==", "1", "if", "b'a'", "..=", "b'i'", "|", "b'k'", "..=", "b'y'", "|", "b'A'", "..=", "b'I'", "|", "b'K'", "..=", "b'Y'", "v4", "0", "return", "Ok(", "v1", "0", "Err(", "INVALID", "else", "timezone_offset(", "v1", "|", "v1", "|", "Ok(", "v1", "false", "false", "false"] := by decide +kernel
+
+/-- callee src/naive/date/mod.rs:fn from_isoywd_opt -/
+theorem callee_src_naive_date_mod_rs_fn_from_isoywd_opt : C09_callee_src_naive_date_mod_rs_fn_from_isoywd_opt =
+    ["v1", "i32", "v2", "u32", "v3", "Weekday", "->", "Option", "<", "NaiveDate", ">", "v4", "YearFlags", "from_year(", "v1", "v5", "v4", "nisoweeks(", "if", "v2", "==", "0", "||", "v2", ">", "v5", "return", "None", "v6", "v2", "*", "7", "+", "v3", "as", "u32", "v7", "v4", "isoweek_delta(", "let(", "v1", "v8", "v4", "if", "v6", "<=", "v7", "v9", "try_opt!(", "v1", "checked_sub(", "1", "v10", "YearFlags", "from_year(", "v9", "v9", "v6", "+", "v10", "ndays(", "-", "v7", "v10", "else", "v8", "v6", "-", "v7", "v11", "v4", "ndays(", "if", "v8", "<=", "v11", "v1", "v8", "v4", "else", "v12", "try_opt!(", "v1", "checked_add(", "1", "v13", "YearFlags", "from_year(", "v12", "v12", "v8", "-", "v11", "v13", "NaiveDate", "from_ordinal_and_flags(", "v1", "v8", "v4"] := by decide +kernel
+
+/-- callee src/naive/date/mod.rs:fn from_mdf -/
+theorem callee_src_naive_date_mod_rs_fn_from_mdf : C09_callee_src_naive_date_mod_rs_fn_from_mdf =
+    ["v1", "i32", "v2", "Mdf", "->", "Option", "<", "NaiveDate", ">", "if", "v1", "<", "MIN_YEAR", "||", "v1", ">", "MAX_YEAR", "return", "None", "Some(", "NaiveDate", "from_yof(", "v1", "<<", "13", "|", "try_opt!(", "v2", "ordinal_and_flags("] := by decide +kernel
+
+/-- callee src/naive/date/mod.rs:fn from_ordinal_and_flags -/
+theorem callee_src_naive_date_mod_rs_fn_from_ordinal_and_flags : C09_callee_src_naive_date_mod_rs_fn_from_ordinal_and_flags =
+    ["v1", "i32", "v2", "u32", "v3", "YearFlags", "->", "Option", "<", "NaiveDate", ">", "if", "v1", "<", "MIN_YEAR", "||", "v1", ">", "MAX_YEAR", "return", "None", "if", "v2", "==", "0", "||", "v2", ">", "366", "return", "None", "debug_assert!(", "YearFlags", "from_year(", "v1", "==", "v3", "v4", "v1", "<<", "13", "|", "v2", "<<", "4", "as", "i32", "|", "v3", "as", "i32", "match", "v4", "&", "OL_MASK", "<=", "MAX_OL", "true", "=>", "Some(", "NaiveDate", "from_yof(", "v4", "false", "=>", "None"] := by decide +kernel
+
+/-- callee src/naive/date/mod.rs:fn from_ymd_opt -/
+theorem callee_src_naive_date_mod_rs_fn_from_ymd_opt : C09_callee_src_naive_date_mod_rs_fn_from_ymd_opt =
+    ["v1", "i32", "v2", "u32", "v3", "u32", "->", "Option", "<", "NaiveDate", ">", "v4", "YearFlags", "from_year(", "v1", "if", "Some(", "v5", "Mdf", "new(", "v2", "v3", "v4", "NaiveDate", "from_mdf(", "v1", "v5", "else", "None"] := by decide +kernel
+
+/-- callee src/naive/date/mod.rs:fn from_yo_opt -/
+theorem callee_src_naive_date_mod_rs_fn_from_yo_opt : C09_callee_src_naive_date_mod_rs_fn_from_yo_opt =
+    ["v1", "i32", "v2", "u32", "->", "Option", "<", "NaiveDate", ">", "v3", "YearFlags", "from_year(", "v1", "NaiveDate", "from_ordinal_and_flags(", "v1", "v2", "v3"] := by decide +kernel
+
+/-- callee src/naive/date/mod.rs:fn mdf -/
+theorem callee_src_naive_date_mod_rs_fn_mdf : C09_callee_src_naive_date_mod_rs_fn_mdf =
+    ["&", "self", "->", "Mdf", "Mdf", "from_ol(", "self", "yof(", "&", "OL_MASK", ">>", "3", "self", "year_flags("] := by decide +kernel
+
+/-- callee src/naive/date/mod.rs:fn weeks_from -/
+theorem callee_src_naive_date_mod_rs_fn_weeks_from : C09_callee_src_naive_date_mod_rs_fn_weeks_from =
+    ["&", "self", "v1", "Weekday", "->", "i32", "self", "ordinal(", "as", "i32", "-", "self", "weekday(", "days_since(", "v1", "as", "i32", "+", "6", "/", "7"] := by decide +kernel
+
+/-- callee src/naive/date/mod.rs:fn yof -/
+theorem callee_src_naive_date_mod_rs_fn_yof : C09_callee_src_naive_date_mod_rs_fn_yof =
+    ["&", "self", "->", "i32", "self", "v1", "get("] := by decide +kernel
+
+/-- callee src/naive/datetime/mod.rs:fn and_utc -/
+theorem callee_src_naive_datetime_mod_rs_fn_and_utc : C09_callee_src_naive_datetime_mod_rs_fn_and_utc =
+    ["&", "self", "->", "DateTime", "<", "Utc", ">", "DateTime", "from_naive_utc_and_offset(", "*", "self", "Utc"] := by decide +kernel
+
+/-- callee src/naive/datetime/mod.rs:fn checked_sub_offset -/
+theorem callee_src_naive_datetime_mod_rs_fn_checked_sub_offset : C09_callee_src_naive_datetime_mod_rs_fn_checked_sub_offset =
+    ["self", "v1", "FixedOffset", "->", "Option", "<", "NaiveDateTime", ">", "let(", "v2", "v3", "self", "v2", "overflowing_sub_offset(", "v1", "v4", "match", "v3", "-", "1", "=>", "try_opt!(", "self", "v4", "pred_opt(", "1", "=>", "try_opt!(", "self", "v4", "succ_opt(", "v5", "=>", "self", "v4", "Some(", "NaiveDateTime", "v4", "v2"] := by decide +kernel
+
+/-- callee src/naive/internals.rs:fn from_ol -/
+theorem callee_src_naive_internals_rs_fn_from_ol : C09_callee_src_naive_internals_rs_fn_from_ol =
+    ["v1", "i32", "YearFlags(", "v2", "YearFlags", "->", "Mdf", "debug_assert!(", "v1", ">", "1", "&&", "v1", "<=", "MAX_OL", "as", "i32", "Mdf(", "v1", "as", "u32", "+", "OL_TO_MDL", "v1", "as", "usize", "as", "u32", "<<", "3", "|", "v2", "as", "u32"] := by decide +kernel
+
+/-- callee src/naive/internals.rs:fn from_year -/
+theorem callee_src_naive_internals_rs_fn_from_year : C09_callee_src_naive_internals_rs_fn_from_year =
+    ["v1", "i32", "->", "YearFlags", "v1", "v1", "rem_euclid(", "400", "YearFlags", "from_year_mod_400(", "v1"] := by decide +kernel
+
+/-- callee src/naive/internals.rs:fn from_year_mod_400 -/
+theorem callee_src_naive_internals_rs_fn_from_year_mod_400 : C09_callee_src_naive_internals_rs_fn_from_year_mod_400 =
+    ["v1", "i32", "->", "YearFlags", "YEAR_TO_FLAGS", "v1", "as", "usize"] := by decide +kernel
+
+/-- callee src/naive/internals.rs:fn isoweek_delta -/
+theorem callee_src_naive_internals_rs_fn_isoweek_delta : C09_callee_src_naive_internals_rs_fn_isoweek_delta =
+    ["&", "self", "->", "u32", "YearFlags(", "v1", "*", "self", "v2", "v1", "&", "7", "as", "u32", "if", "v2", "<", "3", "v2", "+=", "7", "v2"] := by decide +kernel
+
+/-- callee src/naive/internals.rs:fn ndays -/
+theorem callee_src_naive_internals_rs_fn_ndays : C09_callee_src_naive_internals_rs_fn_ndays =
+    ["&", "self", "->", "u32", "YearFlags(", "v1", "*", "self", "366", "-", "v1", ">>", "3", "as", "u32"] := by decide +kernel
+
+/-- callee src/naive/internals.rs:fn nisoweeks -/
+theorem callee_src_naive_internals_rs_fn_nisoweeks : C09_callee_src_naive_internals_rs_fn_nisoweeks =
+    ["&", "self", "->", "u32", "YearFlags(", "v1", "*", "self", "52", "+", "1030", ">>", "v1", "as", "usize", "&", "1"] := by decide +kernel
+
+/-- callee src/naive/internals.rs:fn ordinal_and_flags -/
+theorem callee_src_naive_internals_rs_fn_ordinal_and_flags : C09_callee_src_naive_internals_rs_fn_ordinal_and_flags =
+    ["&", "self", "->", "Option", "<", "i32", ">", "v1", "self", ">>", "3", "match", "MDL_TO_OL", "v1", "as", "usize", "XX", "=>", "None", "v2", "=>", "Some(", "self", "as", "i32", "-", "v2", "as", "i32", "<<", "3"] := by decide +kernel
+
+/-- callee src/naive/time/mod.rs:fn from_hms_nano_opt -/
+theorem callee_src_naive_time_mod_rs_fn_from_hms_nano_opt : C09_callee_src_naive_time_mod_rs_fn_from_hms_nano_opt =
+    ["v1", "u32", "v2", "u32", "v3", "u32", "v4", "u32", "->", "Option", "<", "NaiveTime", ">", "if(", "v1", ">=", "24", "||", "v2", ">=", "60", "||", "v3", ">=", "60", "||", "v4", ">=", "1000000000", "&&", "v3", "!=", "59", "||", "v4", ">=", "2000000000", "return", "None", "v5", "v1", "*", "3600", "+", "v2", "*", "60", "+", "v3", "Some(", "NaiveTime", "v5", "v6", "v4"] := by decide +kernel
+
+/-- callee src/naive/time/mod.rs:fn hms -/
+theorem callee_src_naive_time_mod_rs_fn_hms : C09_callee_src_naive_time_mod_rs_fn_hms =
+    ["&", "self", "->", "u32", "u32", "u32", "v1", "self", "v2", "%", "60", "v3", "self", "v2", "/", "60", "v4", "v3", "%", "60", "v5", "v3", "/", "60", "v5", "v4", "v1"] := by decide +kernel
+
+/-- callee src/offset/fixed.rs:fn east_opt -/
+theorem callee_src_offset_fixed_rs_fn_east_opt : C09_callee_src_offset_fixed_rs_fn_east_opt =
+    ["v1", "i32", "->", "Option", "<", "FixedOffset", ">", "if", "-", "86400", "<", "v1", "&&", "v1", "<", "86400", "Some(", "FixedOffset", "v2", "v1", "else", "None"] := by decide +kernel
+
+/-- callee src/offset/mod.rs:fn from_local_datetime -/
+theorem callee_src_offset_mod_rs_fn_from_local_datetime : C09_callee_src_offset_mod_rs_fn_from_local_datetime =
+    ["&", "self", "v1", "&", "NaiveDateTime", "->", "MappedLocalTime", "<", "DateTime", "<", "Self", ">>", "self", "offset_from_local_datetime(", "v1", "and_then(", "|", "v2", "|", "v1", "checked_sub_offset(", "v2", "fix(", "map(", "|", "v3", "|", "DateTime", "from_naive_utc_and_offset(", "v3", "v2"] := by decide +kernel
+
+/-- callee src/time_delta.rs:fn try_seconds -/
+theorem callee_src_time_delta_rs_fn_try_seconds : C09_callee_src_time_delta_rs_fn_try_seconds =
+    ["v1", "i64", "->", "Option", "<", "TimeDelta", ">", "TimeDelta", "new(", "v1", "0"] := by decide +kernel
+
+/-- callee src/weekday.rs:fn days_since -/
+theorem callee_src_weekday_rs_fn_days_since : C09_callee_src_weekday_rs_fn_days_since =
+    ["&", "self", "v1", "Weekday", "->", "u32", "v2", "*", "self", "as", "u32", "v3", "v1", "as", "u32", "if", "v2", "<", "v3", "7", "+", "v2", "-", "v3", "else", "v2", "-", "v3"] := by decide +kernel
+
+/-- callee src/weekday.rs:fn num_days_from_monday -/
+theorem callee_src_weekday_rs_fn_num_days_from_monday : C09_callee_src_weekday_rs_fn_num_days_from_monday =
+    ["&", "self", "->", "u32", "self", "days_since(", "Weekday", "Mon"] := by decide +kernel
+
 end Chrono.Pins.C09
